@@ -197,7 +197,25 @@ fn check(ctx: &mut Ctx, bytes: &[u8], steps: &[AStep], set: &[u64], origin: &str
         // known finding D17, narrowed by its defect model: the deviation must be exactly the predicted one
         let model = defect_model(bytes, steps, set);
         ctx.transitions += model.items.len() as u64 + 1;
-        if obs == model {
+        // ... and, independently of the model (which runs on the same library), it must have the shape of that
+        // finding: up to the first difference the items and offsets are the blocking iterator's, and the first
+        // difference is a premature end of input — an UnexpectedEOF or a clean end instead of more items, an End that
+        // closes a master early, or a buffered master (same id, same offset) closed early
+        let k = obs.items.iter().zip(blocking.items.iter()).take_while(|(a, b)| a == b).count();
+        let shaped = if k == obs.items.len() {
+            matches!(obs.term, Term::Done | Term::Err(NErr::Eof { .. }))
+        } else {
+            match (&obs.items[k], blocking.items.get(k)) {
+                ((NItem::End(_), _), _) => true,
+                ((NItem::Full(a, _), oa), Some((NItem::Full(b, _), ob))) => a == b && oa == ob,
+                // (the blocking iterator emits nothing of a buffered master it cannot complete)
+                ((NItem::Full(..), _), None) => matches!(blocking.term, Term::Err(_)),
+                _ => false,
+            }
+        };
+        if !shaped {
+            ctx.violation("multi-read/first-difference-is-not-a-premature-end-of-input", &d, &format!("blocking {} | async {} | {} items agree", blocking.short(), obs.short(), k));
+        } else if obs == model {
             ctx.violation("multi-read/explained-by-one-read-per-call", &d, &format!("blocking {} | async {}", blocking.short(), obs.short()));
         } else {
             ctx.violation("multi-read/differs-from-blocking-and-from-the-one-read-per-call-model", &d, &format!("blocking {} | async {} | model {}", blocking.short(), obs.short(), model.short()));
@@ -212,7 +230,7 @@ pub fn run(ctx: &mut Ctx) {
     assert_spec_matches::<V>(&rs);
     let quick = ctx.quick();
     let max_comp = ctx.tier.pick(10, 13);
-    ctx.meta("rule", "cases: (input, buffered set, async read schedule); inputs = documents of T∘E and their truncations / corruptions, documents > 64 KiB (one > 128 KiB with a 200 KB item); schedules = ALL compositions of the input into async read results for inputs up to the composition bound (+ Pending with self-wake before reads), <= 2 short reads otherwise; buffered sets: none, each single master present, all; both the next().await loop (offsets compared) and into_stream() (items compared) on a single-threaded executor. Oracle: items, offsets and first error equal the blocking iterator over the same bytes, ending once. Known finding D17 is narrowed by a defect model (blocking iterator fed one chunk per next() call): a multi-read schedule may deviate only exactly as that model predicts; single-read schedules, the stream adapter's agreement with the loop, and termination-once must hold outright. Non-trivial: schedules with >= 2 non-empty reads.");
+    ctx.meta("rule", "cases: (input, buffered set, async read schedule); inputs = documents of T∘E and their truncations / corruptions, documents > 64 KiB (one > 128 KiB with a 200 KB item); schedules = ALL compositions of the input into async read results for inputs up to the composition bound (+ Pending with self-wake before reads), <= 2 short reads otherwise; buffered sets: none, each single master present, all; both the next().await loop (offsets compared) and into_stream() (items compared) on a single-threaded executor. Oracle: items, offsets and first error equal the blocking iterator over the same bytes, ending once. Known finding D17 is narrowed by a defect model (blocking iterator fed one chunk per next() call): a multi-read schedule may deviate only exactly as that model predicts and, independently of the model, only by a premature end of input (items and offsets equal the blocking iterator's up to the first difference, which is an UnexpectedEOF / clean end / early End / early-closed Full at the same offset); single-read schedules, the stream adapter's agreement with the loop, and termination-once must hold outright. Non-trivial: schedules with >= 2 non-empty reads.");
     ctx.meta("bounds", &format!("all compositions for inputs <= {} bytes; documents <= {} elements; 2 inputs > 64 KiB", max_comp, ctx.tier.pick(3, 4)));
     ctx.meta("assumptions", "single-threaded futures executor; a Pending poll wakes itself immediately");
     for c in ["single_read_schedules_equal_to_blocking", "multi_read_schedules_equal_to_blocking", "pending_polls"] {
